@@ -81,7 +81,28 @@ func ValidateServices(i Input) error {
 		}
 		errs = append(errs, grouperror.Prefix(fmt.Sprintf("%+q: ", n), sErrs...))
 	}
+	errs = append(errs, validateUniqueGetters(i.Services))
 	return grouperror.Prefix("services: ", errs...)
+}
+
+// validateUniqueGetters reports getters shared by many services,
+// since each getter becomes a method of the generated container.
+func validateUniqueGetters(services map[string]Service) error {
+	var errs []error
+	getters := make(map[string][]string)
+	for _, n := range maps.Keys(services) {
+		s := services[n]
+		if ptr.Dereference(s.Todo, DefaultServiceTodo) || s.Getter == nil || *s.Getter == "" {
+			continue
+		}
+		getters[*s.Getter] = append(getters[*s.Getter], fmt.Sprintf("%+q", n))
+	}
+	for _, g := range maps.Keys(getters) {
+		if len(getters[g]) > 1 {
+			errs = append(errs, fmt.Errorf("duplicate getter %+q: %s", g, strings.Join(getters[g], ", ")))
+		}
+	}
+	return grouperror.Join(errs...)
 }
 
 func ValidateServiceName(n string) error {
@@ -119,6 +140,8 @@ func init() {
 	for i := 0; i < r.NumMethod(); i++ {
 		reservedGetters[r.Method(i).Name] = true
 	}
+	// the generated container embeds the type, the name of the embedded field must not be shadowed
+	reservedGetters[r.Elem().Name()] = true
 }
 
 func ValidateServiceGetter(s Service) error {
